@@ -411,7 +411,7 @@ pub fn make_builder(
                             << (field_definition.ranges[0].start)
                     }
                 } else {
-                    if ranges_have_self_overlap(&field_definition.ranges, 0, 0) {
+                    if ranges_have_self_overlap(&field_definition.ranges, 0, 1) {
                         return (quote! {}, Vec::new());
                     }
                     field_definition.ranges.iter().fold(0u128, |a, range| {
